@@ -12,7 +12,9 @@ Implementation side:
     Subprocess.change_state; and the unmodified Supervisor.run()/runforever() over harness/simkernel.py with children that
     write, exit, are restarted, groups added / removed at run time (a FastCGI group whose socket cannot be bound included),
     clock steps, shutdown requests, sendRemoteCommEvent calls.
-Correspondence against Model/Envelope.lean, Model/Tick.lean and Model/Notify.lean.
+  * several listener pools with listeners of the same names (props/_c11_pools.py): what every listener was told, read back
+    from its stdin, against what was announced -- one notification per announcement and pool, only of subscribed types.
+Correspondence against Model/Envelope.lean, Model/Tick.lean, Model/Notify.lean and (pools) Model/Pool.lean.
 Monitors: an independent, byte-oriented listener-side parser (not childutils) applied to the bytes written, the tick rule
 recomputed with exact integer arithmetic, and every notification kind against the ground truth it announces (the keys of
 supervisord.process_groups, the simulated kernel's child table and pipe reads, the daemon state, the clock, the RPC calls).
@@ -23,8 +25,9 @@ from framework import Infra
 ID = 'C11'
 LEAN_PROPS = 'SupervisorModel.Props.C11'
 DRIVER = 'drv_c11'
-GENERATED = ['Envelope', 'EventNames', 'Tick', 'Notify', 'OutDisp']
+GENERATED = ['Envelope', 'EventNames', 'Tick', 'Notify', 'OutDisp', 'Events', 'Listener', 'Pool']
 TRUSTED = [
+    "docs/events.rst of the tree under verification is the reference for the event type names and their hierarchy (harness/sites/events.py)",
     "modelled, not verified: Python's '%' formatting with %s/%(k)s conversions of str and int, str.encode('utf-8') "
     "(the encoder is defined in Lean and compared with Python's on every payload), dict iteration order = insertion order",
     "getProcessStateDescription (the state-name table belongs to C01) and the values pid/tries/expected handed to the "
@@ -49,7 +52,9 @@ RULE = ("envelope cases = (identifier, pool name, serials, concrete event class,
         "every stream of up to 3 symbols over {BEGIN, END, token prefix, x}; change_state cases = all state pairs, random counters; L2 scenarios "
         "= random simkernel scripts (2-5 programs in 2-3 groups, tagged writes incl. whole and split capture sections, exits in the pass of the "
         "last write with 20-50% of ready descriptors not reported, autorestart, fork/pipe faults, start/stop RPCs, group add/remove/stop, "
-        "sendRemoteCommEvent, clock jumps forwards and backwards, shutdown signals); non-trivial = non-ASCII payload, at least one tick / a backward "
+        "sendRemoteCommEvent, clock jumps forwards and backwards, shutdown signals); pool histories = 2-3 real listener pools (1-2 listeners, names "
+        "shared across pools or unique, overlapping / disjoint / abstract subscriptions), announcements of every kind, listeners answering OK / FAIL / "
+        "garbage (whole or split) or dying while busy, then a well-behaved final phase; non-trivial = non-ASCII payload, at least one tick / a backward "
         "step, at least one notification; distinct = distinct canonical case")
 
 SP = {'EventListenerStates': None}
@@ -178,6 +183,8 @@ class EnvelopeSide:
                'class': cls.__name__, 'text': text}
         # ---- monitor: parse the bytes like a listener written in another language ----
         want_name = [k for k, v in vars(events.EventTypes).items() if v is cls]
+        from props.listener_world import DocTypes
+        doc = DocTypes.get()
         try:
             pairs, declared, rest = listener_parse(buf)
             keys = [k for k, _ in pairs]
@@ -193,6 +200,17 @@ class EnvelopeSide:
                 if len(want_name) != 1 or vals[b'eventname'] != want_name[0].encode():
                     ctx.violation('eventname-not-the-concrete-type', 'eventname %r for class %s (registered: %r)' % (
                         vals[b'eventname'], cls.__name__, want_name), inp)
+                # ... and that name is a concrete type of the documentation (docs/events.rst), whose documented supertypes
+                # are the names under which the class's base classes are registered
+                got_name = vals[b'eventname'].decode('ascii', 'replace')
+                if got_name not in doc.concrete:
+                    ctx.violation('eventname-not-a-documented-concrete-type', 'eventname %r for class %s; documented concrete types: %r' % (
+                        got_name, cls.__name__, doc.concrete), inp)
+                else:
+                    bases = [k for c in cls.__mro__ for k, v in vars(events.EventTypes).items() if v is c]
+                    if bases != doc.chain[got_name]:
+                        ctx.violation('eventname-documented-supertypes-differ', 'class %s is notified as %s; its registered bases are %r, the documented supertypes %r' % (
+                            cls.__name__, got_name, bases[1:], doc.chain[got_name][1:]), inp)
             if declared != len(rest):
                 nonascii = any(b > 127 for b in rest)
                 ctx.violation('len-counts-characters-not-bytes' if nonascii and declared == len(payload) else 'len-wrong',
@@ -447,6 +465,9 @@ def run(ctx):
     nt.finish_cases(ctx)
     nt.change_cases(ctx)
     nt.l2_all(ctx)
+    # ---- several pools (listeners of the same names): one notification per announcement and pool ----
+    from props import _c11_pools
+    _c11_pools.run(ctx)
 
 
 def replay(ctx, data):
@@ -455,6 +476,10 @@ def replay(ctx, data):
     from props import _c11_notify as nt
     if inp.get('what') in ('group-history', 'finish', 'change', 'l2'):
         nt.replay(ctx, inp)
+        return
+    if inp.get('what') == 'pools':
+        from props import _c11_pools
+        _c11_pools.replay(ctx, inp)
         return
     classes = class_table()
     if inp['what'] == 'envelope':
@@ -491,7 +516,8 @@ TECHNIQUE = ("Lean 4 theorems over an interpreter of the regenerated header temp
              "by Model/Notify.lean (finish through the dispatcher model of C07/C08), order checked by decided predicates whose soundness is "
              "proved for every step list; differential correspondence against the real Supervisor / Subprocess; ground-truth monitors for "
              "every notification kind under the unmodified main loop on the simulated kernel")
-LEVEL_TEXT = ("header_roundtrip, eventname_concrete (decided over the whole regenerated registry), len_ascii_partial with the "
+LEVEL_TEXT = ("header_roundtrip, eventname_concrete (decided over the whole regenerated registry), eventname_documented / "
+              "registry_names_are_the_documented_ones (the names are those of docs/events.rst), rejection_renotifies_own_pool_only, len_ascii_partial with the "
               "counterexample len_not_byte_length (open finding F2), payload content theorems for every notification kind, send_remote_comm (one-to-one), slice_seconds and tick_exact (every clock reading "
               "sequence, also backwards and skipping), add_truthful / remove_truthful / group_history_view (group notifications and the table in bijection over every history and fault point), "
               "finish_truthful / finish_pids (output flushed at reap time carries the child's pid and precedes the exit notification), change_state_truthful are proved; the model is run against the real implementation on every "
